@@ -21,7 +21,7 @@ from . import C03
 
 PROP = "C14"
 META = {
-    "bounds": {"quick": "2 references x 3 predictions with <= 4 overlapping pairs (and 1x3 with 3); metrics IOU/DSC/ASSD; free real score per (reference, set of predictions); free threshold",
+    "bounds": {"quick": "2 references x 3 predictions with <= 4 overlapping pairs, 1x3 and 1x4 (one reference with four fragments); metrics IOU/DSC/ASSD; free real score per (reference, set of predictions); free threshold",
                "thorough": "2x3 with <= 6 pairs, 3x3 with <= 4 pairs"},
     "stubs": ["_calc_overlapping_labels := exact overlap pairs", "metric kernel := uninterpreted real function of (reference, set of prediction labels)",
               "multiprocessing.Pool := serial starmap"],
@@ -32,7 +32,7 @@ META = {
 
 
 def cases(tier):
-    grids = [(2, 3, 4), (1, 3, 3)] if tier == "quick" else [(2, 3, 6), (3, 3, 4), (1, 3, 3)]
+    grids = [(2, 3, 4), (1, 3, 3), (1, 4, 4)] if tier == "quick" else [(2, 3, 6), (3, 3, 4), (1, 4, 4), (1, 5, 5)]
     return [{"name": "%s_%dx%d_le%d" % (m, R, Pn, mp), "metric": m, "R": R, "P": Pn, "maxpairs": mp}
             for m in ("IOU", "DSC", "ASSD") for (R, Pn, mp) in grids]
 
